@@ -313,6 +313,7 @@ Proof.
   - apply elem_of_list_singleton in Hin. done.
   - pose proof (with_session_closed cl c0 (λ k i n s, (cl, dl s)) ltac:(intros; apply dl_closed)) as Hq. unfold quiet in Hq. rewrite Forall_forall in Hq. by specialize (Hq _ Hin).
   - by apply elem_of_nil in Hin.
+  - by apply elem_of_nil in Hin.
 Qed.
 
 (** ** acknowledgements from subscribers (C03) *)
